@@ -45,9 +45,29 @@ func (g *Gen) ruleBlock(r *Rule) *Block {
 	return g.C.byID["rule:"+key]
 }
 
+// rulePropsOf: a fusion lemma belongs to C02 and to every property named by its rule block
+// (`property C09` on the FASTCALL rules: the fused call forms deliver arguments like CALL).
+func rulePropsOf(b *Block) []string {
+	props := []string{"C02"}
+	for _, p := range b.Props {
+		if p != "C02" && p != "C20" {
+			props = append(props, p)
+		}
+	}
+	return props
+}
+
 func (g *Gen) ruleLemmas(id string) {
 	if id != "C02" && id != "C20" {
-		return
+		tagged := false
+		for _, b := range g.C.Blocks {
+			if b.Kind == "rule" && hasProp(b.Props, id) {
+				tagged = true
+			}
+		}
+		if !tagged {
+			return
+		}
 	}
 	rules := g.extractRules()
 	if len(rules) == 0 {
@@ -65,14 +85,20 @@ func (g *Gen) ruleLemmas(id string) {
 			g.errorf("%s: rule of doOptimize has no `rule` block in the contract file (a new rule needs its lemma)", r.Name())
 			continue
 		}
-		if id == "C02" {
-			o := &Obligation{Name: r.Name() + "/advance", Props: []string{"C02"}, Goal: smtEq(fmt.Sprint(r.Advance), fmt.Sprint(len(r.Window)-1)), Text: "n advances by window size - 1", Unit: r.Name()}
+		if id != "C02" && id != "C20" && !hasProp(b.Props, id) {
+			continue
+		}
+		g.ruleProps = rulePropsOf(b)
+		if id != "C20" {
+			o := &Obligation{Name: r.Name() + "/advance", Props: g.ruleProps, Goal: smtEq(fmt.Sprint(r.Advance), fmt.Sprint(len(r.Window)-1)), Text: "n advances by window size - 1", Unit: r.Name()}
 			g.Obls = append(g.Obls, o)
 			g.fusionLemma(r, b)
 		}
 		// C02 also promises that a failure is reported on the same source line with the optimizer on
 		// or off: the position lemma belongs to both properties
-		g.posLemma(r, b)
+		if id == "C02" || id == "C20" {
+			g.posLemma(r, b)
+		}
 	}
 	if !seenDefault {
 		g.errorf("rules: doOptimize switch has no default (copy) case")
@@ -163,8 +189,8 @@ func (g *Gen) fusionLemma(r *Rule, b *Block) {
 		g.errorf("%s: exec has no loop", r.Name())
 		return
 	}
-	u := g.newUnit(r.Name(), fd, &Block{Kind: "rule", Target: r.Name(), Loop: -1, Closure: -1, Flags: b.Flags, Props: []string{"C02"}})
-	u.props = []string{"C02"}
+	u := g.newUnit(r.Name(), fd, &Block{Kind: "rule", Target: r.Name(), Loop: -1, Closure: -1, Flags: b.Flags, Props: g.ruleProps})
+	u.props = g.ruleProps
 	u.lemma = true
 	g.Funcs[r.Name()] = true
 	st0 := u.entryState()
@@ -207,7 +233,7 @@ func (g *Gen) fusionLemma(r *Rule, b *Block) {
 				se.bound[fmt.Sprintf("w%d%s", i, f)] = t
 			}
 		}
-		se.useLemma(c.Text, r.Name(), []string{"C02"})
+		se.useLemma(c.Text, r.Name(), g.ruleProps)
 	}
 	// fused instruction
 	fused := map[string]Term{}
@@ -302,7 +328,7 @@ func (g *Gen) fusionLemma(r *Rule, b *Block) {
 				if assumeReq {
 					s.assume(t.S)
 				} else {
-					u.addObl(fmt.Sprintf("%s/fusion#requires-%s-%d", r.Name(), codes[k], i), []string{"C02"}, s, t.S, "the fused instruction's precondition follows from the window's: "+c.Text, nil)
+					u.addObl(fmt.Sprintf("%s/fusion#requires-%s-%d", r.Name(), codes[k], i), g.ruleProps, s, t.S, "the fused instruction's precondition follows from the window's: "+c.Text, nil)
 					s.assume(t.S)
 				}
 			}
@@ -387,7 +413,7 @@ func (g *Gen) fusionLemma(r *Rule, b *Block) {
 
 func (g *Gen) compareSides(u *Unit, r *Rule, A, B *lemmaSide, vObj Term, k int) {
 	name := r.Name() + "/fusion#"
-	props := []string{"C02"}
+	props := g.ruleProps
 	// events: same calls in the same order with equal arguments
 	if len(A.events) != len(B.events) {
 		g.Obls = append(g.Obls, &Obligation{Name: name + "events", Props: props, Goal: "false", Unit: r.Name(), unit: u,
